@@ -760,7 +760,21 @@ class EdgeQLSourceGenerator(codegen.SourceGenerator):
 
     def visit_Splat(self, node: qlast.Splat) -> None:
         if node.type is not None:
+            # Only a plain type name can be used without parentheses
+            # (a type operation is printed with its own).
+            parenthesize = not (
+                isinstance(node.type, qlast.TypeOp)
+                or (
+                    isinstance(node.type, qlast.TypeName)
+                    and isinstance(node.type.maintype, qlast.ObjectRef)
+                    and node.type.subtypes is None
+                )
+            )
+            if parenthesize:
+                self.write('(')
             self.visit(node.type)
+            if parenthesize:
+                self.write(')')
         if node.intersection is not None:
             self.visit(node.intersection)
         if node.type is not None or node.intersection is not None:
